@@ -127,7 +127,8 @@ class Env:
         return "struct %s\n{\n%s};\n" % (n, "".join("    %s\n" % x for x in lines))
 
     def render(self, indices=None):
-        indices = indices or range(1, len(self.defs) + 1)
+        if indices is None:
+            indices = range(1, len(self.defs) + 1)
         return "\n".join(self.render_def(i) for i in indices)
 
 
